@@ -16,16 +16,23 @@
  *     22..25 sm9 *_info_decrypt_from_der (iteration count <= 2048)
  *     26 sm9_signature_from_der, sm9_verify_* with the seed master public key (par & 1: skip the pairing)
  *     27 sm9_ciphertext_from_der, sm9_decrypt with the seed key; output exactly SM9_MAX_PLAINTEXT_SIZE (par & 1: parse only)
+ *     28 the object is the PLAINTEXT PrivateKeyInfo: the harness encrypts it (PBES2, PBKDF2-HMAC-SM3 with one iteration, SM4-CBC,
+ *        fixed salt / IV, password PASS) into a well-formed EncryptedPrivateKeyInfo and gives that to
+ *        par % 5: sm2_private_key_info_decrypt_from_der, sm9_{sign_master,sign,enc_master,enc}_key_info_decrypt_from_der
+ *        (byte mutation of the encrypted form only ever reaches the padding / outer DER checks)
  *     other values: 0
  * FZ_SKIP: oid33, pem (PEM bodies that can decode to more than the reader's internal buffer)
  */
 #define FZ_TARGET "fz_keys"
+#define FZ_DER_PREFIX 2
 #include "fz_common.h"
 #include <gmssl/asn1.h>
 #include <gmssl/oid.h>
 #include <gmssl/sm2.h>
 #include <gmssl/sm9.h>
 #include <gmssl/pkcs8.h>
+#include <gmssl/pbkdf2.h>
+#include <gmssl/sm4.h>
 #include <gmssl/pem.h>
 #include <gmssl/ec.h>
 #include <gmssl/rsa.h>
@@ -247,6 +254,43 @@ int LLVMFuzzerTestOneInput(const uint8_t *data, size_t size)
 				case 25: if (sm9_enc_key_info_decrypt_from_der(&e, PASS, &in, &inlen) == 1) FZ_ACCEPT(); break;
 				}
 			}
+		}
+		break;
+	case 28:
+		{
+			static uint8_t k[16];
+			static int k_ready;
+			static const uint8_t salt[8] = "saltsalt", iv[16] = "0123456789abcdef";
+			SM4_KEY sm4;
+			uint8_t *enced, *der, *q;
+			const uint8_t *cp;
+			size_t encedlen = 0, derlen = 0;
+			if (n > 1200) break;
+			if (!k_ready) {
+				if (sm3_pbkdf2(PASS, strlen(PASS), salt, sizeof(salt), 1, sizeof(k), k) != 1) abort();
+				k_ready = 1;
+			}
+			enced = fz_out(n + 16);
+			der = fz_out(n + 160);
+			sm4_set_encrypt_key(&sm4, k);
+			if (sm4_cbc_padding_encrypt(&sm4, iv, obj, n, enced, &encedlen) != 1) abort();
+			q = der;
+			if (pkcs8_enced_private_key_info_to_der(salt, sizeof(salt), 1, 16, OID_hmac_sm3, OID_sm4_cbc, iv, 16, enced, encedlen, &q, &derlen) != 1) abort();
+			if (derlen > n + 160) abort();
+			cp = der;
+			{
+				SM2_KEY key; const uint8_t *attrs; size_t attrslen;
+				SM9_SIGN_MASTER_KEY a; SM9_SIGN_KEY b; SM9_ENC_MASTER_KEY c; SM9_ENC_KEY e;
+				switch (par % 5) {
+				case 0: if (sm2_private_key_info_decrypt_from_der(&key, &attrs, &attrslen, PASS, &cp, &derlen) == 1) FZ_ACCEPT(); break;
+				case 1: if (sm9_sign_master_key_info_decrypt_from_der(&a, PASS, &cp, &derlen) == 1) FZ_ACCEPT(); break;
+				case 2: if (sm9_sign_key_info_decrypt_from_der(&b, PASS, &cp, &derlen) == 1) FZ_ACCEPT(); break;
+				case 3: if (sm9_enc_master_key_info_decrypt_from_der(&c, PASS, &cp, &derlen) == 1) FZ_ACCEPT(); break;
+				case 4: if (sm9_enc_key_info_decrypt_from_der(&e, PASS, &cp, &derlen) == 1) FZ_ACCEPT(); break;
+				}
+			}
+			free(enced);
+			free(der);
 		}
 		break;
 	case 26:
